@@ -10,31 +10,31 @@
 EXTENDS Integers, Sequences
 
 SITable == <<
-  [id |-> "QUECTO", name |-> "quecto", abbr |-> <<113>>,      exp |-> -30],
-  [id |-> "RONTO",  name |-> "ronto",  abbr |-> <<114>>,      exp |-> -27],
-  [id |-> "YOCTO",  name |-> "yocto",  abbr |-> <<121>>,      exp |-> -24],
-  [id |-> "ZEPTO",  name |-> "zepto",  abbr |-> <<122>>,      exp |-> -21],
-  [id |-> "ATTO",   name |-> "atto",   abbr |-> <<97>>,       exp |-> -18],
-  [id |-> "FEMTO",  name |-> "femto",  abbr |-> <<102>>,      exp |-> -15],
-  [id |-> "PICO",   name |-> "pico",   abbr |-> <<112>>,      exp |-> -12],
-  [id |-> "NANO",   name |-> "nano",   abbr |-> <<110>>,      exp |-> -9],
-  [id |-> "MICRO",  name |-> "micro",  abbr |-> <<181>>,      exp |-> -6],
-  [id |-> "MILLI",  name |-> "milli",  abbr |-> <<109>>,      exp |-> -3],
-  [id |-> "CENTI",  name |-> "centi",  abbr |-> <<99>>,       exp |-> -2],
-  [id |-> "DECI",   name |-> "deci",   abbr |-> <<100>>,      exp |-> -1],
-  [id |-> "NONE",   name |-> "",       abbr |-> <<>>,         exp |-> 0],
-  [id |-> "DECA",   name |-> "deca",   abbr |-> <<100, 97>>,  exp |-> 1],
-  [id |-> "HECTO",  name |-> "hecto",  abbr |-> <<104>>,      exp |-> 2],
-  [id |-> "KILO",   name |-> "kilo",   abbr |-> <<107>>,      exp |-> 3],
-  [id |-> "MEGA",   name |-> "mega",   abbr |-> <<77>>,       exp |-> 6],
-  [id |-> "GIGA",   name |-> "giga",   abbr |-> <<71>>,       exp |-> 9],
-  [id |-> "TERA",   name |-> "tera",   abbr |-> <<84>>,       exp |-> 12],
-  [id |-> "PETA",   name |-> "peta",   abbr |-> <<80>>,       exp |-> 15],
-  [id |-> "EXA",    name |-> "exa",    abbr |-> <<69>>,       exp |-> 18],
-  [id |-> "ZETTA",  name |-> "zetta",  abbr |-> <<90>>,       exp |-> 21],
-  [id |-> "YOTTA",  name |-> "yotta",  abbr |-> <<89>>,       exp |-> 24],
-  [id |-> "RONNA",  name |-> "ronna",  abbr |-> <<82>>,       exp |-> 27],
-  [id |-> "QUETTA", name |-> "quetta", abbr |-> <<81>>,       exp |-> 30] >>
+  [id |-> "QUECTO", name |-> "quecto", ncp |-> <<113, 117, 101, 99, 116, 111>>, abbr |-> <<113>>,      exp |-> -30],
+  [id |-> "RONTO",  name |-> "ronto", ncp |-> <<114, 111, 110, 116, 111>>,  abbr |-> <<114>>,      exp |-> -27],
+  [id |-> "YOCTO",  name |-> "yocto", ncp |-> <<121, 111, 99, 116, 111>>,  abbr |-> <<121>>,      exp |-> -24],
+  [id |-> "ZEPTO",  name |-> "zepto", ncp |-> <<122, 101, 112, 116, 111>>,  abbr |-> <<122>>,      exp |-> -21],
+  [id |-> "ATTO",   name |-> "atto", ncp |-> <<97, 116, 116, 111>>,   abbr |-> <<97>>,       exp |-> -18],
+  [id |-> "FEMTO",  name |-> "femto", ncp |-> <<102, 101, 109, 116, 111>>,  abbr |-> <<102>>,      exp |-> -15],
+  [id |-> "PICO",   name |-> "pico", ncp |-> <<112, 105, 99, 111>>,   abbr |-> <<112>>,      exp |-> -12],
+  [id |-> "NANO",   name |-> "nano", ncp |-> <<110, 97, 110, 111>>,   abbr |-> <<110>>,      exp |-> -9],
+  [id |-> "MICRO",  name |-> "micro", ncp |-> <<109, 105, 99, 114, 111>>,  abbr |-> <<181>>,      exp |-> -6],
+  [id |-> "MILLI",  name |-> "milli", ncp |-> <<109, 105, 108, 108, 105>>,  abbr |-> <<109>>,      exp |-> -3],
+  [id |-> "CENTI",  name |-> "centi", ncp |-> <<99, 101, 110, 116, 105>>,  abbr |-> <<99>>,       exp |-> -2],
+  [id |-> "DECI",   name |-> "deci", ncp |-> <<100, 101, 99, 105>>,   abbr |-> <<100>>,      exp |-> -1],
+  [id |-> "NONE",   name |-> "", ncp |-> <<>>,       abbr |-> <<>>,         exp |-> 0],
+  [id |-> "DECA",   name |-> "deca", ncp |-> <<100, 101, 99, 97>>,   abbr |-> <<100, 97>>,  exp |-> 1],
+  [id |-> "HECTO",  name |-> "hecto", ncp |-> <<104, 101, 99, 116, 111>>,  abbr |-> <<104>>,      exp |-> 2],
+  [id |-> "KILO",   name |-> "kilo", ncp |-> <<107, 105, 108, 111>>,   abbr |-> <<107>>,      exp |-> 3],
+  [id |-> "MEGA",   name |-> "mega", ncp |-> <<109, 101, 103, 97>>,   abbr |-> <<77>>,       exp |-> 6],
+  [id |-> "GIGA",   name |-> "giga", ncp |-> <<103, 105, 103, 97>>,   abbr |-> <<71>>,       exp |-> 9],
+  [id |-> "TERA",   name |-> "tera", ncp |-> <<116, 101, 114, 97>>,   abbr |-> <<84>>,       exp |-> 12],
+  [id |-> "PETA",   name |-> "peta", ncp |-> <<112, 101, 116, 97>>,   abbr |-> <<80>>,       exp |-> 15],
+  [id |-> "EXA",    name |-> "exa", ncp |-> <<101, 120, 97>>,    abbr |-> <<69>>,       exp |-> 18],
+  [id |-> "ZETTA",  name |-> "zetta", ncp |-> <<122, 101, 116, 116, 97>>,  abbr |-> <<90>>,       exp |-> 21],
+  [id |-> "YOTTA",  name |-> "yotta", ncp |-> <<121, 111, 116, 116, 97>>,  abbr |-> <<89>>,       exp |-> 24],
+  [id |-> "RONNA",  name |-> "ronna", ncp |-> <<114, 111, 110, 110, 97>>,  abbr |-> <<82>>,       exp |-> 27],
+  [id |-> "QUETTA", name |-> "quetta", ncp |-> <<113, 117, 101, 116, 116, 97>>, abbr |-> <<81>>,       exp |-> 30] >>
 
 SIIds == {SITable[i].id : i \in DOMAIN SITable}
 SIIdx(id) == CHOOSE i \in DOMAIN SITable : SITable[i].id = id
